@@ -182,6 +182,28 @@ claim('C07',
       'complex unitaries.',
       'TLC-exact only up to 16 x 16 Fock matrices; beyond that the oracle is the harness transcription of the same '
       'definition (integer exact); gauge clause tolerance 1e-9.')
+claim('C14',
+      'TLC model checking of the size / breakdown protocol Krylov.tla (all n, m, kdim of the bounds) + TLC trace validation '
+      '(TraceKrylov.tla) of real Lanczos / Arnoldi calls against the exactly computed Krylov dimension; factorization '
+      'relations as observed predicates (mode N)',
+      'What is decided exactly: returned sizes are mutually consistent, the number of Krylov vectors is min(m, kdim) with '
+      'kdim computed over the rationals, a warning is issued exactly on early termination, no call raises - for integer and '
+      'Gaussian-integer matrices of seven families (generic, degenerate, hidden block structure, scalar, ladder, projector) '
+      'and start vectors that are generic, real, unit or confined to an invariant subspace, m = 1 .. n+2. What is observed: '
+      'orthonormality, V^H A V = T / H up to the exhaustion point, real alpha, positive beta, Hessenberg form (1e-10 / 1e-9).',
+      'The relations themselves are floating-point facts (level other); rounding-level off-diagonals that do not trip the '
+      'absolute breakdown threshold of the code are marked ambiguous for the size clause.', category='other')
+claim('C15',
+      'TLC model checking of routing and of the regime table of Krylov.tla + TLC trace validation (TraceKrylov.tla) of '
+      'eigh_krylov / expm_krylov calls: the clauses required in the regime of each call (exhausted iff m >= exact kdim) '
+      'must have been observed (oracles numpy eigvalsh, scipy expm)',
+      'Routing (hermitian -> Lanczos, general -> Arnoldi) is checked exactly by wrappers; the regime of every call is decided '
+      'with exact integers; in the exhausted regime (incl. m > n, invariant start subspaces, defective general matrices) the '
+      'exponential must equal expm(dt A) v for both branches and complex dt and the lowest Ritz value must be the smallest '
+      'reachable eigenvalue; always lambda_min <= theta_0 <= Rayleigh quotient and norm preservation for imaginary time; '
+      'below exhaustion Ritz vectors orthonormal with Ritz values as Rayleigh quotients.',
+      'Everything except routing and the regime predicate is numerical (level other); bounds 1e-10 resp. 1e-9 (1+|dt| ||A||).',
+      category='other')
 
 def main():
     props = [json.loads(l) for l in open(os.path.join(VERIF, 'properties.jsonl'))]
